@@ -72,7 +72,7 @@ CHECKS = {
         "level_note": "Trusted: scripted hook executable and its log.",
         "parts": [
             {"part": "hookmgr", "test": "TestStartupOrder", "quick": {"checks": 320, "shards": 16}, "thorough": {"checks": 16000, "shards": 16, "timeout": 3000}},
-            {"part": "e2e", "test": "TestE2E", "quick": {"checks": 240, "shards": 16, "shrinktime": "90s", "timeout": 900}, "thorough": {"checks": 5000, "shards": 16, "shrinktime": "180s", "timeout": 6000}, "owned_schedule": False},
+            {"part": "e2e", "test": "TestE2E", "quick": {"checks": 240, "shards": 16, "shrinktime": "90s", "timeout": 900}, "thorough": {"checks": 5000, "shards": 16, "shrinktime": "180s", "timeout": 6000}, "owned_schedule": False, "accept_unreproduced": True},
         ],
     },
     "C11": {
